@@ -21,6 +21,7 @@ BLOCK_SLACK = 20  # blocks over the last ROUNDS-WARM rounds on top of the interp
 DRIVER_SOURCE = r'''
 import faulthandler, gc, json, os, sys
 faulthandler.enable()
+sys.unraisablehook = lambda u: None  # a __del__ that raises is part of the scenarios
 modname, outpath, specpath = sys.argv[1:4]
 with open(specpath) as f:
     spec = json.load(f)
@@ -55,30 +56,99 @@ def build_args(mode, P):
     return [mode, pa, pb, o, l, d, ps, pn, nd]
 
 
-def touch(x, depth=0):
-    """Visit everything reachable from the arguments / the result after a call: a Tracked object that was
-    finalized (over-released) while still referenced is reported - or, being freed memory under the debug
-    allocator, kills the process, which is reported too."""
+SLOTS = {}   # id -> [object, number of container slots / attributes seen holding it]
+SEEN = set()  # ids of containers already visited in this pass
+
+
+def _touch(x, depth):
     t = type(x)
     if t is Tracked:
+        e = SLOTS.get(id(x))
+        if e is None:
+            SLOTS[id(x)] = [x, 1]
+        else:
+            e[1] += 1
         if id(x) not in Tracked.alive:
             return "a finalized Tracked object (tag slot %r) is still reachable" % (x.tag,)
         return None
-    if depth > 8:
+    if depth > 8 or id(x) in SEEN:
         return None
-    if t is list or t is tuple:
+    if t is list or t is tuple or t is set or t is frozenset:
+        SEEN.add(id(x))
         for y in x:
-            r = touch(y, depth + 1)
+            r = _touch(y, depth + 1)
             if r:
                 return r
     elif t is dict:
+        SEEN.add(id(x))
         for y in x.values():
-            r = touch(y, depth + 1)
+            r = _touch(y, depth + 1)
             if r:
                 return r
     elif t is mod.Node:
-        return touch(x.val, depth + 1) or touch(x.nxt, depth + 1) or touch(x.items, depth + 1)
+        SEEN.add(id(x))
+        return _touch(x.val, depth + 1) or _touch(x.nxt, depth + 1) or _touch(x.items, depth + 1)
+    elif RES is not None and isinstance(x, RES):
+        SEEN.add(id(x))
+        r = _touch(x.x, depth + 1)
+        if r:
+            return r
+        if type(x.n) is not int or type(x.kind) is not int:
+            return "a finalizer survivor has corrupt attributes"
+        if hasattr(x, "y"):
+            return _touch(x.y, depth + 1)
     return None
+
+
+def touch(*roots):
+    """Visit everything reachable from the arguments / the result / the finalizer survivors after a call.
+    Reported: a Tracked object that was finalized (over-released) while still referenced (or, being freed memory
+    under the debug allocator, the process dies, which is reported too), and a Tracked object whose reference
+    count is lower than the number of container slots and attributes found holding it (e.g. [t, u, t, t] built
+    with too few inc_refs)."""
+    SLOTS.clear()
+    SEEN.clear()
+    bad = None
+    for x in roots:
+        bad = _touch(x, 0)
+        if bad:
+            break
+    if not bad:
+        for e in SLOTS.values():
+            # references held right now besides the counted slots: the SLOTS entry, `e`-access temp, getrefcount's argument
+            if sys.getrefcount(e[0]) - 2 < e[1]:
+                bad = "a Tracked object (tag %r) has reference count %d but %d references to it are reachable" % (e[0].tag, sys.getrefcount(e[0]) - 2, e[1])
+                break
+    SLOTS.clear()
+    SEEN.clear()
+    return bad
+
+
+RES = getattr(mod, "Res", None)
+
+
+def survivors():
+    """Objects resurrected by a native __del__ (module-level list / attribute of a long-lived object): use them
+    from the interpreted side, then let them go for good."""
+    out = []
+    g = getattr(mod, "GRAVE", None)
+    if g is not None:
+        out.extend(g)
+    h = getattr(mod, "HOLDER", None)
+    if h is not None and h.last is not None:
+        out.append(h.last)
+    for sv in out:
+        sv.ping()
+    return out
+
+
+def bury():
+    g = getattr(mod, "GRAVE", None)
+    if g is not None:
+        del g[:]
+    h = getattr(mod, "HOLDER", None)
+    if h is not None:
+        h.last = None
 
 
 DEAD = []
@@ -90,11 +160,11 @@ def one(fn, mode, P, want_line=False):
     try:
         res = fn(*args)
         oc = "ok:" + type(res).__name__
-        dead = touch(res) or touch(args)
+        dead = touch(res, args, survivors())
         if dead and not DEAD:
             DEAD.append(dead)
     except BaseException as e:
-        dead = touch(args)
+        dead = touch(args, survivors())
         if dead and not DEAD:
             DEAD.append(dead)
         oc = "exc:" + type(e).__name__
@@ -108,6 +178,7 @@ def one(fn, mode, P, want_line=False):
         e = None
     res = None
     args = None
+    bury()
     if want_line:
         return oc, line
     return oc
@@ -276,7 +347,7 @@ def run_with_crash_loop(d: str, modname: str, spec: dict, tag: str, max_crashes:
     return done, crashes, None
 
 
-TAG_PRIORITY = ["gen-abandoned:", "gen-closed:", "gen-exhausted:", "closure", "with", "init-shape", "maybe-unbound-read", "finally", "reraise", "try",
+TAG_PRIORITY = ["finalizer:", "big-display:", "gen-abandoned:", "gen-closed:", "gen-exhausted:", "closure", "with", "init-shape", "maybe-unbound-read", "finally", "reraise", "try",
                 "tuple-unpack", "steal-twice", "comprehension", "arg-reassigned", "break", "continue", "early-return", "loop", "container-store", "call-may-raise", "raise", "branch"]
 
 
